@@ -9,6 +9,74 @@ use std::io::{BufRead, BufReader, BufWriter, Write};
 use vharness::props;
 use vharness::util::Rng;
 
+/// VH_JOBS > 1: re-run this command in N worker processes (VH_WORKER=k/N); every worker
+/// handles the lines / indices congruent to k modulo N and writes <out>.part<k>; the parent
+/// merges the parts in index order.  Process-level parallelism keeps chdir and the
+/// in-process find runs safe.
+fn worker() -> Option<(usize, usize)> {
+    let w = std::env::var("VH_WORKER").ok()?;
+    let (k, n) = w.split_once('/')?;
+    Some((k.parse().ok()?, n.parse().ok()?))
+}
+
+fn fan_out(args: &[String], out_idx: usize) -> bool {
+    let jobs: usize = std::env::var("VH_JOBS").ok().and_then(|j| j.parse().ok()).unwrap_or(1);
+    if jobs <= 1 || worker().is_some() {
+        return false;
+    }
+    let me = std::env::current_exe().expect("exe");
+    let mut kids = vec![];
+    for k in 0..jobs {
+        let mut a = args[1..].to_vec();
+        a[out_idx - 1] = format!("{}.part{}", args[out_idx], k);
+        kids.push(
+            std::process::Command::new(&me)
+                .args(&a)
+                .env("VH_WORKER", format!("{}/{}", k, jobs))
+                .spawn()
+                .expect("spawn worker"),
+        );
+    }
+    let mut ok = true;
+    for mut c in kids {
+        ok &= c.wait().map(|s| s.success()).unwrap_or(false);
+    }
+    if !ok {
+        eprintln!("a worker failed");
+        std::process::exit(2);
+    }
+    // merge: every line carries its index as "#<idx>\t" prefix
+    let mut all: Vec<(u64, String)> = vec![];
+    for k in 0..jobs {
+        let p = format!("{}.part{}", args[out_idx], k);
+        for line in std::fs::read_to_string(&p).unwrap_or_default().lines() {
+            if let Some((i, rest)) = line.split_once('\t') {
+                all.push((i.trim_start_matches('#').parse().unwrap_or(0), rest.to_string()));
+            }
+        }
+        let _ = std::fs::remove_file(&p);
+    }
+    all.sort_by_key(|x| x.0);
+    let mut out = BufWriter::new(std::fs::File::create(&args[out_idx]).expect("out"));
+    let (mut n, mut skipped, mut failed) = (0u64, 0u64, 0u64);
+    let mut had_summary = false;
+    for (_, l) in all {
+        let v: Value = serde_json::from_str(&l).unwrap_or(Value::Null);
+        if v.get("summary").is_some() {
+            n += v["replayed"].as_u64().unwrap_or(0);
+            skipped += v["skipped"].as_u64().unwrap_or(0);
+            failed += v["failed"].as_u64().unwrap_or(0);
+            had_summary = true;
+        } else {
+            writeln!(out, "{}", l).unwrap();
+        }
+    }
+    if had_summary {
+        writeln!(out, "{}", json!({"summary": true, "replayed": n, "skipped": skipped, "failed": failed})).unwrap();
+    }
+    true
+}
+
 fn main() {
     let args: Vec<String> = std::env::args().collect();
     if args.len() < 3 {
@@ -21,13 +89,23 @@ fn main() {
     };
     match args[1].as_str() {
         "replay" => {
+            if fan_out(&args, 4) {
+                return;
+            }
+            let w = worker();
+            let pre = |i: u64| if w.is_some() { format!("#{}\t", i) } else { String::new() };
             let f = BufReader::new(std::fs::File::open(&args[3]).expect("vectors"));
             let mut out = BufWriter::new(std::fs::File::create(&args[4]).expect("results"));
             let (mut n, mut skipped, mut failed) = (0u64, 0u64, 0u64);
-            for line in f.lines() {
+            for (li, line) in f.lines().enumerate() {
                 let line = line.unwrap();
                 if line.trim().is_empty() {
                     continue;
+                }
+                if let Some((k, nn)) = w {
+                    if li % nn != k {
+                        continue;
+                    }
                 }
                 let v: Value = serde_json::from_str(&line).expect("vector json");
                 if v["exp"].get("dom").and_then(|d| d.as_bool()) == Some(false) {
@@ -38,27 +116,45 @@ fn main() {
                 let obs = prop.run(&v["in"]);
                 if !prop.same(&v["exp"], &obs) {
                     failed += 1;
-                    writeln!(out, "{}", json!({"fail": true, "in": v["in"], "exp": v["exp"], "obs": obs})).unwrap();
+                    writeln!(out, "{}{}", pre(li as u64), json!({"fail": true, "in": v["in"], "exp": v["exp"], "obs": obs})).unwrap();
                 }
             }
-            writeln!(out, "{}", json!({"summary": true, "replayed": n, "skipped": skipped, "failed": failed})).unwrap();
+            writeln!(out, "{}{}", pre(u64::MAX), json!({"summary": true, "replayed": n, "skipped": skipped, "failed": failed})).unwrap();
         }
-        "record" | "selftest" => {
+        "record" => {
             let seed: u64 = args[3].parse().expect("seed");
             let n: usize = args[4].parse().expect("n");
             let tier = args[5].clone();
+            if fan_out(&args, 6) {
+                return;
+            }
+            let w = worker();
             let mut out = BufWriter::new(std::fs::File::create(&args[6]).expect("trace"));
-            let mut rng = Rng::new(seed);
             for idx in 0..n {
-                let input = prop.gen(&mut rng, idx, &tier);
-                let mut obs = prop.run(&input);
-                if args[1] == "selftest" {
-                    match prop.corrupt(&obs) {
-                        Some(o) => obs = o,
-                        None => continue,
+                if let Some((k, nn)) = w {
+                    if idx % nn != k {
+                        continue;
                     }
                 }
+                // one generator per case, so that a case does not depend on which worker ran it
+                let mut rng = Rng::new(seed ^ (idx as u64).wrapping_mul(0xA24BAED4963EE407));
+                let input = prop.gen(&mut rng, idx, &tier);
+                let obs = prop.run(&input);
+                if w.is_some() {
+                    write!(out, "#{}\t", idx).unwrap();
+                }
                 writeln!(out, "{}", json!({"in": input, "obs": obs})).unwrap();
+            }
+        }
+        "corrupt" => {
+            // vh corrupt PROP in.ndjson out.ndjson : corrupt the observation of every record
+            let f = BufReader::new(std::fs::File::open(&args[3]).expect("in"));
+            let mut out = BufWriter::new(std::fs::File::create(&args[4]).expect("out"));
+            for line in f.lines() {
+                let v: Value = serde_json::from_str(&line.unwrap()).expect("json");
+                if let Some(o) = prop.corrupt(&v["obs"]) {
+                    writeln!(out, "{}", json!({"in": v["in"], "obs": o})).unwrap();
+                }
             }
         }
         "run" => {
